@@ -84,6 +84,26 @@ Theorem C08_hkl_inverse : forall Rm UBm qx qy qz sR sU sq,
             /\ H = hkl_spec Rp UBp Qp.
 Proof using. exact (hkl_inverse h mn). Qed.
 
+(* ... for ANY units of the operands (UB dimensionless, 1/angstrom, 1/nm ...; dimensions = lists of the 9 base-unit
+   exponents): the stored numbers depend on the operands' numbers only and the unit is unit(Q) / (unit(R) unit(UB)),
+   so the same numbers given again with another unit give the same numbers in the correspondingly changed unit *)
+Theorem C08_hkl_inverse_any_units : forall Rm UBm qx qy qz sR sU sq dR dU dq,
+  sR > 0 -> sU > 0 -> sq > 0 -> mdet (mmul Rm UBm) <> 0 -> length dR = 9%nat -> length dU = 9%nat -> length dq = 9%nat ->
+  let Rp := msc sR Rm in let UBp := msc sU UBm in let Qp := phys qx qy qz sq in
+  exists H, is_vec h mn (hkl_vec_from_Q_vec O (tv qx qy qz sq dq) (tmat h mn UBm sU dU) (tmat h mn Rm sR dR))
+                   (vx H) (vy H) (vz H) (sq / (sR * sU)) (dsub dq (dadd dR dU))
+            /\ vsc (2 * PI) (mapp (mmul Rp UBp) H) = Qp
+            /\ H = hkl_spec Rp UBp Qp.
+Proof using. exact (hkl_inverse_units h mn). Qed.
+
+Theorem C08_hkl_numbers_independent_of_units : forall Rm UBm qx qy qz sR sU sq dR dU dq,
+  sR > 0 -> sU > 0 -> mdet (mmul Rm UBm) <> 0 -> length dR = 9%nat -> length dU = 9%nat -> length dq = 9%nat ->
+  let H := hkl_spec Rm UBm (mkV qx qy qz) in
+  exists u, hkl_vec_from_Q_vec O (tv qx qy qz sq dq) (tmat h mn UBm sU dU) (tmat h mn Rm sR dR)
+            = VVar O (EVec O (vx H) (vy H) (vz H)) u DVec3
+            /\ ud O u = dsub dq (dadd dR dU) /\ us O u = sq / (sR * sU).
+Proof using. exact (hkl_raw_units h mn). Qed.
+
 Theorem C08_ub_is_product : forall U B su sb dmu dmb,
   ub_matrix_from_u_and_b O (tmat h mn U su dmu) (tmat h mn B sb dmb) = tmat h mn (mmul U B) (su * sb) (dadd dmu dmb).
 Proof using. exact (ub_is_product h mn). Qed.
@@ -119,9 +139,10 @@ Example C08_nonvacuous :
   18 / 10 > 0 /\ 1 / 10000000000 > 0 /\ mkV 0 0 10 <> v0 /\ mkV 3 4 0 <> v0
   /\ orthogonal (mkM 0 (-1) 0 1 0 0 0 0 1)
   /\ mdet (mmul (mkM 0 (-1) 0 1 0 0 0 0 1) (mkM (1 / 4) 0 0 0 (1 / 5) 0 0 0 (1 / 6))) <> 0
-  /\ 0 < angle (phys 0 0 10 1) (phys 3 4 0 (1 / 1000)).
+  /\ 0 < angle (phys 0 0 10 1) (phys 3 4 0 (1 / 1000))
+  /\ length dzero = 9%nat /\ length TieC01.d_invm = 9%nat.
 Proof.
-  repeat split; try lra; try (intros E; injection E; lra); try (unfold orthogonal; apply mat_eq; simpl; ring).
+  repeat split; try lra; try (intros E; injection E; lra); try (unfold orthogonal; apply mat_eq; simpl; ring); try reflexivity.
   - unfold mdet, mmul; simpl; lra.
   - (* perpendicular beams: angle = acos 0 = PI/2 *)
     unfold angle, cosang. replace (dot (phys 0 0 10 1) (phys 3 4 0 (1 / 1000))) with 0 by (unfold dot, phys; simpl; ring).
@@ -135,6 +156,8 @@ Print Assumptions C08_Qvec_norm_is_Q.
 Print Assumptions C08_Qvec_scale_invariant.
 Print Assumptions C08_Qvec_rotates.
 Print Assumptions C08_hkl_inverse.
+Print Assumptions C08_hkl_inverse_any_units.
+Print Assumptions C08_hkl_numbers_independent_of_units.
 Print Assumptions C08_ub_is_product.
 Print Assumptions C08_split_join_lossless.
 Print Assumptions C08_join_split_lossless.
